@@ -67,6 +67,30 @@ Definition comma_sp : pstr := [44; 32]%N.
 Fixpoint join_p (sep : pstr) (l : list pstr) : pstr :=
   match l with [] => [] | [x] => x | x :: r => x ++ sep ++ join_p sep r end.
 
+(* dictionary keys jsonpickle reserves for its own tags (jsonpickle.tags.RESERVED, 4.1.2): an entry under such a
+   key is silently left out of the encoded dictionary (jsonpickle.util.is_picklable) *)
+Definition reserved_keys : list pstr := [
+  [112; 121; 47; 98; 121; 116; 101; 115]%N;   (* py/bytes *)
+  [112; 121; 47; 102; 117; 110; 99; 116; 105; 111; 110]%N;   (* py/function *)
+  [112; 121; 47; 105; 100]%N;   (* py/id *)
+  [112; 121; 47; 105; 110; 105; 116; 97; 114; 103; 115]%N;   (* py/initargs *)
+  [112; 121; 47; 105; 116; 101; 114; 97; 116; 111; 114]%N;   (* py/iterator *)
+  [112; 121; 47; 109; 111; 100]%N;   (* py/mod *)
+  [112; 121; 47; 110; 101; 119; 97; 114; 103; 115]%N;   (* py/newargs *)
+  [112; 121; 47; 110; 101; 119; 97; 114; 103; 115; 101; 120]%N;   (* py/newargsex *)
+  [112; 121; 47; 110; 101; 119; 111; 98; 106]%N;   (* py/newobj *)
+  [112; 121; 47; 111; 98; 106; 101; 99; 116]%N;   (* py/object *)
+  [112; 121; 47; 112; 114; 111; 112; 101; 114; 116; 121]%N;   (* py/property *)
+  [112; 121; 47; 114; 101; 100; 117; 99; 101]%N;   (* py/reduce *)
+  [112; 121; 47; 114; 101; 102]%N;   (* py/ref *)
+  [112; 121; 47; 114; 101; 112; 114]%N;   (* py/repr *)
+  [112; 121; 47; 115; 101; 113]%N;   (* py/seq *)
+  [112; 121; 47; 115; 101; 116]%N;   (* py/set *)
+  [112; 121; 47; 115; 116; 97; 116; 101]%N;   (* py/state *)
+  [112; 121; 47; 116; 117; 112; 108; 101]%N;   (* py/tuple *)
+  [112; 121; 47; 116; 121; 112; 101]%N   (* py/type *) ].
+Definition reserved_key (k : pstr) : bool := existsb (pstr_eqb k) reserved_keys.
+
 (* print a value whose dictionaries are already in the order to print *)
 Fixpoint print (v : val) : pstr :=
   match v with
@@ -83,7 +107,12 @@ Fixpoint print (v : val) : pstr :=
       join_p comma_sp ((fix go (l : list val) := match l with [] => [] | x :: r => print x :: go r end) l) ++ [93; 125]%N
   | VDict kvs =>
       [123%N] ++ join_p comma_sp ((fix go (l : list (pstr * val)) :=
-                                     match l with [] => [] | (k, x) :: r => (json_str k ++ [58; 32]%N ++ print x) :: go r end) kvs)
+                                     match l with
+                                     | [] => []
+                                     | (k, x) :: r =>
+                                         if reserved_key k then go r
+                                         else (json_str k ++ [58; 32]%N ++ print x) :: go r
+                                     end) kvs)
       ++ [125%N]
   end.
 
